@@ -35,22 +35,39 @@ pub fn emit_parse(out: &mut impl Write, vi: usize, mode: char, bytes: &[u8]) {
             let s = match &r { Ok(h) => format!("ok:{}", hash_bin(h, bin_len)), Err(e) => parse_err_str(*e) };
             // other entry points must agree (valid UTF-8 only)
             let mut agree = true;
+            // direct oracle (C04): whatever ANY entry point accepts re-formats to "T1" + upper(its own digits)
+            let mut canonical = true;
+            let mut accepted: Vec<T> = Vec::new();
+            if let Ok(h) = &r { accepted.push(h.clone()); }
             if let Ok(st) = std::str::from_utf8(bytes) {
                 let r2 = T::from_str_with(st, mode_of(mode));
                 agree &= r2 == r;
+                if let Ok(h) = r2 { accepted.push(h); }
                 if mode == 'n' {
-                    agree &= T::from_str(st) == r;
+                    let r3 = T::from_str(st);
+                    agree &= r3 == r;
+                    if let Ok(h) = r3 { accepted.push(h); }
                     agree &= st.parse::<T>() == r;
                 }
             }
-            (s, agree)
+            for h in &accepted {
+                let mut buf = vec![0u8; 2 * bin_len + 2];
+                let n = h.store_into_str_bytes(&mut buf, HexStringPrefix::WithVersion).unwrap();
+                let digits: &[u8] = if bytes.starts_with(b"T1") && bytes.len() == 2 * bin_len + 2 { &bytes[2..] } else { bytes };
+                let want: Vec<u8> = b"T1".iter().copied().chain(digits.iter().map(|c| c.to_ascii_uppercase())).collect();
+                canonical &= buf[..n] == want[..];
+            }
+            (s, agree, canonical)
         });
         let head = format!("parse {} {} {}", vi, mode, hex(bytes));
         match r {
-            Ok((s, agree)) => {
+            Ok((s, agree, canonical)) => {
                 writeln!(out, "{} => {}", head, s).unwrap();
                 if !agree {
                     writeln!(out, "ORACLE C05 parse-entry-points-disagree {}", head).unwrap();
+                }
+                if !canonical {
+                    writeln!(out, "ORACLE C04 accepted-string-does-not-re-format-to-its-own-upper-case-form {}", head).unwrap();
                 }
             }
             Err(()) => {
@@ -109,7 +126,22 @@ pub fn stream_parse(out: &mut impl Write, seed: u64, budget: usize) {
         let bin = random_hash_bytes(&mut rng, vi);
         let with_prefix = match mode { 'e' => false, 'w' => true, _ => rng.chance(1, 2) };
         let mut s = hash_text(vi, &bin, with_prefix);
-        match rng.below(16) {
+        match rng.below(19) {
+            16 => {
+                // a valid text decorated the way text files decorate it: whitespace before / after (a &str
+                // entry point that normalises its input would accept it; the byte parser must not)
+                let ws: &[&[u8]] = &[b" ", b"\n", b"\r\n", b"\t", "\u{a0}".as_bytes(), "\u{3000}".as_bytes(), b"\0", b"\x0c"];
+                let w = *rng.pick(ws);
+                match rng.below(3) { 0 => { let mut t = w.to_vec(); t.extend_from_slice(&s); s = t; } 1 => s.extend_from_slice(w), _ => { let mut t = w.to_vec(); t.extend_from_slice(&s); t.extend_from_slice(w); s = t; } }
+            }
+            17 | 18 => {
+                // a multi-byte character over as many bytes (the byte length stays right); half of the time
+                // at the very start, where &str-based prefix handling would slice inside it
+                let ch: &str = *rng.pick(&["é", "€", "日", "😀", "\u{a0}"]);
+                let p = if rng.chance(1, 2) { rng.below(3) as usize } else { rng.below(s.len() as u64) as usize };
+                let p = p.min(s.len());
+                let mut t = s[..p].to_vec(); t.extend_from_slice(ch.as_bytes()); t.extend_from_slice(&s[(p + ch.len()).min(s.len())..]); s = t;
+            }
             0 | 1 => {}
             2 => { for c in s.iter_mut() { if rng.chance(1, 2) { *c = c.to_ascii_lowercase(); } } }
             3 | 4 | 5 | 6 => {
@@ -306,7 +338,19 @@ pub fn emit_frombin(out: &mut impl Write, vi: usize, bytes: &[u8]) {
     match r {
         Ok((s, a)) => {
             writeln!(out, "{} s => {}", head, s).unwrap();
-            if let Some(a) = a { writeln!(out, "{} a => {}", head, a).unwrap(); }
+            if let Some(a) = &a { writeln!(out, "{} a => {}", head, a).unwrap(); }
+            // direct oracle (C06): a hash value obtained through the TEXT parser of this build stores to these
+            // bytes and converts back from them (slice and array) to the identical hash
+            if bytes.len() == bin_len {
+                let text = hash_text(vi, bytes, true);
+                let via_text: Option<String> = with_variant!(vi, T => T::from_str_bytes(&text, None).ok().map(|h| hash_bin(&h, bin_len)));
+                if let Some(t) = via_text {
+                    let want = format!("ok:{}", t);
+                    if t != hex(bytes) || s != want || a.as_deref().map(|x| x != want).unwrap_or(false) {
+                        writeln!(out, "ORACLE C06 binary-form-does-not-round-trip-a-hash-the-text-parser-accepts {}", head).unwrap();
+                    }
+                }
+            }
         }
         Err(()) => { writeln!(out, "{} s => panic", head).unwrap(); writeln!(out, "ORACLE C06 try-from-panicked {}", head).unwrap(); }
     }
